@@ -11,7 +11,8 @@ def handlers : List (String × (String → Json → Except String Json)) := [
   ("c11", Aeic.Dispatch.handle),
   ("grid", Aeic.Grid.handle),
   ("c01", Aeic.Emissions.handle),
-  ("c14", Aeic.Query.handle)
+  ("c14", Aeic.Query.handle),
+  ("c12", Aeic.EI.handle)
 ]
 
 def dispatch (op : String) (j : Json) : Except String Json :=
